@@ -39,6 +39,7 @@ FLOORS = {
     "thorough": {"fn_cases": 1000, "lane_output_checks": 4000, "site_lane_matches": 4000, "axis_nonzero": 250, "ragged_rank_sites": 150, "sample_shape_sites": 150, "gfi_method_checks": 1500, "int_in_axes": 30},
 }
 TIMEOUT_S = {"quick": 1500, "thorough": 5400}
+CLEAR_CACHES_EVERY = {"quick": 0, "thorough": 6}  # see lib/worker.py
 
 
 def plan(tier, seed):
